@@ -38,6 +38,11 @@ _SIMPLE = {
     "FieldValue": ("Option", "Num"),
     "Point": "Point",
     "SimpleQuery": "SimpleQuery",  # the record of what the index uses of a query object (Py/Typed.lean)
+    # database layer: the index object is the translated class, storage and query objects are foreign (Py/Typed.lean, Ext)
+    "Index": "IndexImpl.Self",
+    "Storage": "Storage",
+    "Query": "Q",
+    "Measurement": "Unit",
 }
 
 
@@ -86,6 +91,8 @@ def elem_type(t):
         return t[1]
     if isinstance(t, tuple) and t[0] == "AL":
         return t[1]  # iterating a dict yields its keys
+    if t == "Storage":
+        return "Point"  # iterating a storage object yields its rows (the decoded view: a point)
     return None
 
 
@@ -136,7 +143,9 @@ def assigned(stmts, mutators):
             f = s.value.func
             if _is_self_attr(f) and f.attr in mutators:
                 add("self")
-            elif f.attr in _MUTATING_METHODS:
+            elif _is_self_attr(f.value) and f.value.attr in ("_index", "_storage"):
+                add("self")      # a method of a nested object changes that object
+            elif f.attr in _MUTATING_METHODS + ("clear",):
                 add(path_root(f.value))
         elif isinstance(s, ast.If):
             for n in assigned(s.body, mutators) + assigned(s.orelse, mutators):
@@ -158,6 +167,18 @@ def exits(stmts):
         return True
     if isinstance(s, ast.If):
         return exits(s.body) and exits(s.orelse)
+    return False
+
+
+def may_exit(stmts):
+    """some path through the block ends in return / raise / continue (not counting nested loops' own `continue`)"""
+    for s in stmts:
+        if isinstance(s, (ast.Return, ast.Raise, ast.Continue)):
+            return True
+        if isinstance(s, ast.If) and (may_exit(s.body) or may_exit(s.orelse)):
+            return True
+        if isinstance(s, ast.Try) and (may_exit(s.body) or any(may_exit(h.body) for h in s.handlers)):
+            return True
     return False
 
 
@@ -192,6 +213,20 @@ class Fn:
             if isinstance(t, tuple) and t[0] == "Prod" and isinstance(e.slice, ast.Constant) and e.slice.value in (0, 1):
                 return t[1 + e.slice.value]
             return None
+        if isinstance(e, ast.Call) and isinstance(e.func, ast.Attribute) and _is_self_attr(e.func.value):
+            if e.func.value.attr == "_storage" and e.func.attr == "_deserialize_measurement":
+                return "String"
+            if e.func.value.attr == "_storage" and e.func.attr == "_deserialize_storage_item":
+                return "Point"
+            if e.func.value.attr == "_index" and e.func.attr == "search":
+                return "IndexResult"
+        if isinstance(e, ast.Attribute) and self.ty(e.value) == "IndexResult" and e.attr in ("_items", "items"):
+            return ("List", "Nat")
+        if isinstance(e, ast.Compare) and len(e.ops) == 1 and isinstance(e.ops[0], ast.Eq) and isinstance(e.left, ast.Call) \
+                and isinstance(e.left.func, ast.Name) and e.left.func.id == "MeasurementQuery":
+            return "Q"
+        if isinstance(e, ast.BinOp) and isinstance(e.op, ast.BitAnd) and self.ty(e.left) == "Q":
+            return "Q"
         if isinstance(e, ast.Call) and isinstance(e.func, ast.Attribute) and not e.args:
             t = self.ty(e.func.value)
             if isinstance(t, tuple) and t[0] == "AL":
@@ -206,6 +241,8 @@ class Fn:
             if e.func.id == "zip" and len(e.args) == 2:
                 a, b = (elem_type(self.ty(x)) for x in e.args)
                 return ("List", ("Prod", a, b)) if a and b else None
+            if e.func.id == "enumerate" and len(e.args) == 1 and self.ty(e.args[0]) == "Storage":
+                return ("List", ("Prod", "Nat", "Point"))
             if e.func.id == "enumerate" and len(e.args) == 1:
                 a = elem_type(self.ty(e.args[0]))
                 return ("List", ("Prod", "Nat", a)) if a else None
@@ -219,6 +256,8 @@ class Fn:
         t = self.ty(e)
         if isinstance(t, tuple) and t[0] == "AL":
             return f"(keys {self.atom(e)})"
+        if t == "Storage":
+            return f"(Storage.iter {self.atom(e)})"
         return self.atom(e)
 
     def bind_target(self, target, it):
@@ -247,6 +286,10 @@ class Fn:
                 if e.attr not in self.cls.attrs:
                     raise Unsupported("attribute self." + e.attr)
                 return f"self.{e.attr}"
+            if self.ty(e.value) == "IndexImpl.Self" and e.attr == "valid":
+                return f"(← IndexImpl.valid {self.atom(e.value)})"
+            if self.ty(e.value) == "IndexResult" and e.attr in ("_items", "items"):
+                return f"{self.atom(e.value)}._items"
             if isinstance(e.value, ast.Name) and e.attr in _POINT_ATTR:
                 return f"{e.value.id}.{_POINT_ATTR[e.attr]}"
             if isinstance(e.value, ast.Name) and e.attr == "time":
@@ -275,6 +318,10 @@ class Fn:
             if isinstance(e.slice, ast.Constant) and e.slice.value in (0, 1) and isinstance(e.value, ast.Name):
                 return f"(item{e.slice.value} {e.value.id})"
             return f"(← getItem {self.atom(e.value)} {self.atom(e.slice)})"
+        if isinstance(e, ast.BinOp) and isinstance(e.op, ast.BitAnd) and self.ty(e.left) == "Q":
+            return f"(ext.qand {self.atom(e.left)} {self.atom(e.right)})"
+        if isinstance(e, ast.Compare) and self.ty(e) == "Q":
+            return f"(ext.meas_eq {self.atom(e.comparators[0])})"
         if isinstance(e, ast.BinOp):
             if isinstance(e.op, ast.Add):
                 return f"({self.ex(e.left)} + {self.ex(e.right)})"
@@ -368,10 +415,12 @@ class Fn:
                 return f"(isin {x} {y})"
             if isinstance(op, ast.NotIn):
                 return f"(!isin {x} {y})"
+            ta, tb = self.ty(a), self.ty(b)
+            mixed = ta is not None and tb is not None and ta != tb
             if isinstance(op, ast.Eq):
-                return f"({x} == {y})"
+                return f"(pyEq {x} {y})" if mixed else f"({x} == {y})"
             if isinstance(op, ast.NotEq):
-                return f"({x} != {y})"
+                return f"(!pyEq {x} {y})" if mixed else f"({x} != {y})"
             sym = {ast.Lt: "<", ast.LtE: "≤", ast.Gt: ">", ast.GtE: "≥"}.get(type(op))
             if sym:
                 return f"(decide ({x} {sym} {y}))"
@@ -385,6 +434,8 @@ class Fn:
         kw = {k.arg: k.value for k in e.keywords}
         if isinstance(f, ast.Name):
             n = f.id
+            if n == "len" and len(e.args) == 1 and not kw and self.ty(e.args[0]) == "IndexImpl.Self":
+                return f"(← IndexImpl.__len__ {self.atom(e.args[0])})"
             if n == "len" and len(e.args) == 1 and not kw:
                 return f"(len {self.atom(e.args[0])})"
             if n == "set" and not kw:
@@ -401,7 +452,11 @@ class Fn:
             if n == "zip" and len(e.args) == 2 and not kw:
                 return f"(List.zip {self.atom(e.args[0])} {self.atom(e.args[1])})"
             if n == "enumerate" and len(e.args) == 1 and not kw:
-                return f"(enumerate {self.atom(e.args[0])})"
+                return f"(enumerate {self.iter_of(e.args[0])})"
+            if n == "index_is_exact" and len(e.args) == 1 and not kw:
+                return f"(ext.index_is_exact {self.atom(e.args[0])})"
+            if self.env.get(n) == "Q" and len(e.args) == 1 and not kw:
+                return f"(← ext.call {n} {self.atom(e.args[0])})"
             if n == "sorted" and len(e.args) == 1 and set(kw) == {"key"} and isinstance(kw["key"], ast.Lambda):
                 return f"(sortedBy {self.lam(kw['key'])} {self.atom(e.args[0])})"
             raise Unsupported("call of " + n)
@@ -416,6 +471,11 @@ class Fn:
                 return f"({name} {self.atom(recv)} {self.atom(args[0])})"
             if f.attr == "timestamp" and not args:
                 return f"(timestamp {self.atom(recv)})"
+            if _is_self_attr(recv) and recv.attr == "_storage" and f.attr in ("_deserialize_measurement", "_deserialize_storage_item") \
+                    and len(args) == 1:
+                return f"(Storage.{f.attr} self._storage {self.atom(args[0])})"
+            if _is_self_attr(recv) and recv.attr == "_index" and f.attr == "search" and len(args) == 1:
+                return f"(← ext.index_search self._index {self.atom(args[0])})"
             if isinstance(recv, ast.Name) and self.env.get(recv.id) == "SimpleQuery" and f.attr == "_test" and len(args) == 1:
                 return f"(← {recv.id}._test {self.atom(args[0])})"
             if _is_self_attr(f) and f.attr in self.cls.readers:
@@ -443,6 +503,18 @@ class Fn:
                     return self.cls.attrs.get(n.targets[0].attr)
                 if isinstance(n, ast.Return) and isinstance(n.value, ast.Name) and n.value.id == name and self.ret:
                     return self.ret
+        # elements added are positions counted by `enumerate`
+        counters = set()
+        for n in ast.walk(self.fn):
+            if (isinstance(n, ast.For) and isinstance(n.iter, ast.Call) and isinstance(n.iter.func, ast.Name)
+                    and n.iter.func.id == "enumerate" and isinstance(n.target, ast.Tuple) and isinstance(n.target.elts[0], ast.Name)):
+                counters.add(n.target.elts[0].id)
+        for s in rest:
+            for n in ast.walk(s):
+                if (isinstance(n, ast.Call) and isinstance(n.func, ast.Attribute) and n.func.attr in ("add", "append")
+                        and isinstance(n.func.value, ast.Name) and n.func.value.id == name and len(n.args) == 1
+                        and isinstance(n.args[0], ast.Name) and n.args[0].id in counters):
+                    return "(List Nat)"
         return None
 
     def path_update(self, target, final):
@@ -502,6 +574,8 @@ class Fn:
         if isinstance(s, ast.Return):
             if s.value is None:
                 return f"{ind}pure self\n" if self.mutator else f"{ind}pure ()\n"
+            if self.mutval:
+                return f"{ind}pure (self, {self.ex(s.value)})\n"
             if self.mutator:
                 raise Unsupported("a mutator returns a value")
             return f"{ind}pure {self.atom(s.value)}\n"
@@ -561,11 +635,26 @@ class Fn:
             raise Unsupported("augmented assignment " + ast.dump(s))
         if isinstance(s, ast.Expr) and isinstance(s.value, ast.Call) and isinstance(s.value.func, ast.Attribute):
             c, f = s.value, s.value.func
-            if c.keywords and not (f.attr == "sort"):
+            if c.keywords and not (f.attr == "sort") and not (_is_self_attr(f.value) and f.value.attr == "_storage"):
                 raise Unsupported("keyword call")
             if _is_self_attr(f) and f.attr in self.cls.mutators:
                 args = " ".join(self.atom(a) for a in c.args)
                 return f"{ind}let self ← {f.attr} self {args}\n".replace("  \n", "\n") + self.block(rest, k, ind, defined)
+            if _is_self_attr(f.value) and f.value.attr == "_index" and not c.keywords:
+                args = " ".join(self.atom(a) for a in c.args)
+                return (f"{ind}let self := {{ self with _index := (← IndexImpl.{f.attr} self._index {args}) }}\n".replace(" ) }", ") }")
+                        + self.block(rest, k, ind, defined))
+            if _is_self_attr(f.value) and f.value.attr == "_storage":
+                kws = {x.arg: x.value for x in c.keywords}
+                if set(kws) - {"temporary"}:
+                    raise Unsupported("keyword call " + ast.dump(c)[:120])
+                args = " ".join(self.atom(a) for a in c.args)
+                if f.attr == "append":
+                    args += " " + (self.cond(kws["temporary"]) if "temporary" in kws else "false")
+                return (f"{ind}let self := {{ self with _storage := (← Storage.{f.attr} self._storage {args}) }}\n".replace(" ) }", ") }")
+                        + self.block(rest, k, ind, defined))
+            if f.attr == "clear" and not c.args and _is_self_attr(f.value):
+                return f"{ind}let self := {{ self with {f.value.attr} := [] }}\n" + self.block(rest, k, ind, defined)
             if f.attr in ("append", "add", "extend") and len(c.args) == 1:
                 fn = {"append": "append", "add": "setAdd", "extend": "extend"}[f.attr]
                 arg = self.atom(c.args[0])
@@ -588,6 +677,20 @@ class Fn:
             ok = (ok and isinstance(call, ast.Call) and isinstance(call.func, ast.Attribute) and not call.keywords
                   and call.func.attr == "_path_resolver" and isinstance(call.func.value, ast.Name)
                   and self.env.get(call.func.value.id) == "SimpleQuery" and len(call.args) == 1)
+            if (not ok and len(s.body) == 1 and isinstance(s.body[0], ast.Expr) and len(s.handlers) == 1 and not s.orelse
+                    and not s.finalbody and isinstance(s.handlers[0].type, ast.Name) and s.handlers[0].type.id == "Exception"
+                    and s.handlers[0].name is None and s.handlers[0].body and isinstance(s.handlers[0].body[-1], ast.Raise)
+                    and s.handlers[0].body[-1].exc is None):
+                # try: self._storage.m()  except Exception: <statements>; raise
+                c0 = s.body[0].value
+                if not (isinstance(c0, ast.Call) and isinstance(c0.func, ast.Attribute) and _is_self_attr(c0.func.value)
+                        and c0.func.value.attr == "_storage" and not c0.args and not c0.keywords):
+                    raise Unsupported("try statement " + ast.dump(s)[:200])
+                i2 = ind + "  "
+                handler = self.block(s.handlers[0].body[:-1], "throw e", i2, defined)
+                return (f"{ind}match Storage.{c0.func.attr} self._storage with\n"
+                        f"{ind}| .error e => do\n{handler}"
+                        f"{ind}| .ok st => do\n{i2}let self := {{ self with _storage := st }}\n{self.block(rest, k, i2, defined)}")
             if not ok:
                 raise Unsupported("try statement " + ast.dump(s)[:200])
             a = call.args[0]
@@ -602,6 +705,9 @@ class Fn:
             return (f"{ind}match {call.func.value.id}._path_resolver {arg} with\n"
                     f"{ind}| .error _ => do\n{self.block(s.handlers[0].body, k, i2, defined)}"
                     f"{ind}| .ok {x} => do\n{self.block(rest, k, i2, defined | {x})}")
+        if isinstance(s, ast.If) and isinstance(s.test, ast.Name) and s.test.id in self.known:
+            # the truth value of this local is known on this path (see below)
+            return self.block(list(s.body if self.known[s.test.id] else s.orelse) + rest, k, ind, defined)
         if isinstance(s, ast.If):
             c = self.cond(s.test)
             be, oe = exits(s.body), exits(s.orelse)
@@ -615,6 +721,19 @@ class Fn:
             if oe:
                 return (f"{ind}if {c} then do\n{self.block(list(s.body) + rest, k, i2, defined)}"
                         f"{ind}else do\n{self.block(s.orelse, k, i2, defined)}")
+            if may_exit(s.body) or may_exit(s.orelse):
+                # a branch that leaves the iteration / the function on some path only: what follows the `if` is continued
+                # inside both branches
+                nm = s.test.id if isinstance(s.test, ast.Name) and s.test.id not in self.reassigned else None
+                saved = dict(self.known)
+                if nm:
+                    self.known[nm] = True     # a later `if flag:` on this path is decided statically
+                tb = self.block(list(s.body) + rest, k, i2, defined)
+                if nm:
+                    self.known[nm] = False
+                te = self.block(list(s.orelse) + rest, k, i2, defined)
+                self.known = saved
+                return f"{ind}if {c} then do\n{tb}{ind}else do\n{te}"
             vs = [v for v in assigned(s.body, self.cls.mutators) + assigned(s.orelse, self.cls.mutators)]
             vs = [v for i, v in enumerate(vs) if v not in vs[:i]]
             fresh = [v for v in vs if v not in defined and v != "self"]
@@ -624,6 +743,17 @@ class Fn:
             local = [v for v in fresh if not any(isinstance(n, ast.Name) and n.id == v and id(n) not in inside for n in later)]
             vs = [v for v in vs if v not in local]
             fresh = [v for v in fresh if v not in local]
+            if fresh and isinstance(s.test, ast.Name) and s.test.id in defined and s.test.id not in self.reassigned:
+                # `if flag:` binds names that later code uses under the same flag: continue both branches separately, each
+                # knowing the flag (a later `if flag:` is then decided statically)
+                nm = s.test.id
+                saved = dict(self.known)
+                self.known[nm] = True
+                tb = self.block(list(s.body) + rest, k, i2, defined)
+                self.known[nm] = False
+                te = self.block(list(s.orelse) + rest, k, i2, defined)
+                self.known = saved
+                return f"{ind}if {c} then do\n{tb}{ind}else do\n{te}"
             if fresh:
                 raise Unsupported(f"variable(s) {fresh} first bound inside an if that falls through")
             if not vs:
@@ -667,9 +797,21 @@ class Fn:
             params.append((p.arg, lean_type(p.annotation)))
             self.env[p.arg] = parse_type(p.annotation)
         self.mutator = fn.name in self.cls.mutators
+        self.mutval = fn.name in self.cls.mutvals
         self.loop_k = None
         self.after = []
-        if self.mutator:
+        self.known = {}
+        counts = {}
+        for n in ast.walk(fn):
+            if isinstance(n, (ast.Assign, ast.AnnAssign, ast.AugAssign)):
+                for t in (n.targets if isinstance(n, ast.Assign) else [n.target]):
+                    if isinstance(t, ast.Name):
+                        counts[t.id] = counts.get(t.id, 0) + 1
+        self.reassigned = {n for n, c in counts.items() if c > 1}
+        if self.mutval:
+            self.mutator = True
+            rty = f"(Self × {lean_type(fn.returns)})"
+        elif self.mutator:
             rty = "Self"
         else:
             if fn.returns is None:
@@ -679,7 +821,7 @@ class Fn:
             if assigned(fn.body, self.cls.mutators).count("self"):
                 raise Unsupported(f"{fn.name} is annotated as returning a value but changes self")
         sig = " ".join(f"({n} : {t})" for n, t in params)
-        body = self.block(fn.body, "pure self" if self.mutator else "throw PyErr.typeError", "  ",
+        body = self.block(fn.body, "throw PyErr.typeError" if (self.mutval or not self.mutator) else "pure self", "  ",
                           {"self"} | {n for n, _ in params})
         return f"def {fn.name} (self : Self) {sig} : M {rty} := do\n{body}".replace(" ) :", ") :")
 
@@ -699,11 +841,14 @@ class Cls:
             raise Unsupported(f"methods missing from class {node.name}: {missing}")
         self.mutators = set()
         self.readers = set()
+        self.mutvals = set()      # methods that change the object and return a value
         for w in want:
             m = self.methods[w]
             r = m.returns
             if isinstance(r, ast.Constant) and r.value is None:
                 self.mutators.add(w)
+            elif assigned(m.body, self.mutators).count("self"):
+                self.mutvals.add(w)
             else:
                 self.readers.add(w)
 
@@ -717,7 +862,11 @@ INDEX_METHODS = [
     "build",
     "get_field_keys", "get_field_values", "get_measurements", "get_tag_keys", "get_tag_values", "get_timestamps",
     "_search_fields", "_search_measurement", "_search_tags",
+    "valid", "__len__",
 ]
+
+# the methods of `TinyFlux` that are translated (the list level: storage is the decoded view of its rows)
+DATABASE_METHODS = ["_reset_database", "_remove_helper"]
 
 
 def generate_index(src: str) -> str:
@@ -763,7 +912,40 @@ def generate_index(src: str) -> str:
     return "\n".join(out) + "\n"
 
 
+def generate_database(src: str) -> str:
+    mod = ast.parse(src)
+    node = next((n for n in mod.body if isinstance(n, ast.ClassDef) and n.name == "TinyFlux"), None)
+    if node is None:
+        raise Unsupported("class TinyFlux not found")
+    cls = Cls(node, DATABASE_METHODS)
+    out = [
+        "import TinyFlux.Generated.IndexImpl",
+        "/-! GENERATED by tools/py2lean (class mode) from tinyflux/database.py — do not edit. -/",
+        "set_option linter.unusedVariables false",
+        "namespace TinyFlux.Generated.DatabaseImpl",
+        "open TinyFlux.Py.Typed TinyFlux.Model TinyFlux.Spec TinyFlux.Generated",
+        "",
+        "/-- what the translated methods use of objects that are not translated: query objects (`Q`) and `Index.search` -/",
+        "structure Ext (Q : Type) where",
+        "  index_is_exact : Q → Bool                       -- `index_is_exact(query)`",
+        "  meas_eq : Option String → Q                     -- `MeasurementQuery() == measurement`",
+        "  qand : Q → Q → Q                                -- `mq & query`",
+        "  call : Q → Point → M Bool                       -- `query(point)`",
+        "  index_search : IndexImpl.Self → Q → M IndexResult   -- `self._index.search(query)`",
+        "",
+        "/-- the attributes of `TinyFlux` (class-level annotations) -/",
+        "structure Self where",
+    ]
+    for a, t in cls.attrs.items():
+        out.append(f"  {a} : {t}")
+    out += ["", "section", "variable {Q : Type} (ext : Ext Q)", ""]
+    for name in DATABASE_METHODS:
+        out.append(Fn(cls, cls.methods[name]).translate())
+    out += ["end", "end TinyFlux.Generated.DatabaseImpl"]
+    return "\n".join(out) + "\n"
+
+
 if __name__ == "__main__":
     import sys
 
-    print(generate_index(open(sys.argv[1]).read()))
+    print((generate_database if "database" in sys.argv[1] else generate_index)(open(sys.argv[1]).read()))
